@@ -95,6 +95,8 @@ def to_coq(c):
     s = c["stream"]
     if c.get("crash"):
         return "KPipe [1] [1] []"        # never equal: a crash is a mismatch
+    if s in ("write", "read") and c[s].get("skipped"):
+        return None
     if s == "write":
         if max(c["write"]["sizes"] or [0]) > 200000:
             return None      # the model's loop is quadratic in the buffer: oracle only (byte equality, n)
@@ -107,6 +109,8 @@ def to_coq(c):
         return pipe_term(c["pipe"])
     if s == "e2e":
         e = c["e2e"]
+        if e.get("skipped"):
+            return None
         if e.get("setup_err"):
             return "KPipe [1] [1] []"
         return "KClose %s %s" % (cbool(e["closer"] == "client"), cbool(e["end_kind"] in ("eof", "error")))
@@ -117,8 +121,12 @@ def impl_oracle(c):
     if c.get("crash"):
         return ("crash", "the code under test crashed: %s" % c["crash"][:300])
     s = c["stream"]
+    if s in ("write", "read") and c[s].get("skipped"):
+        return None
     if s == "write":
         w = c["write"]
+        if w.get("peer_wait") == "timeout":
+            return ("side-closewrite-hung", "after CloseWrite the peer saw no end marker within the bound")
         if any(e for e in w["errs"]):
             return ("side-write-error", "sideConn.Write failed on an open connection: %s" % w["errs"])
         if w["ns"] != w["sizes"]:
@@ -145,6 +153,8 @@ def impl_oracle(c):
             return ("tunnel-read-overrun", "a read reply of %d bytes was accepted into a %d-byte buffer" % (p["len"], p["cap"]))
     elif s == "e2e":
         e = c["e2e"]
+        if e.get("skipped"):
+            return None
         if e.get("setup_err"):
             return ("e2e-setup", "could not run the connection: %s" % e["setup_err"])
         for name, d in (("client->application", e["c2a"]), ("application->client", e["a2c"])):
@@ -186,6 +196,9 @@ def run(ck):
     for c in cases:
         s = c["stream"]
         body = c.get(s)
+        if body and body.get("skipped"):
+            ck.coverage["e2e_skipped_after_timeouts"] = ck.coverage.get("e2e_skipped_after_timeouts", 0) + 1
+            continue
         if s == "e2e" and body:
             ck.count("e2e-" + body["mode"], key=("e2e", c["i"]), trivial=body["c2a"]["sent"] == 0 and body["a2c"]["sent"] == 0)
             ck.coverage["e2e_bytes"] = ck.coverage.get("e2e_bytes", 0) + body["c2a"]["received"] + body["a2c"]["received"]
